@@ -10,7 +10,7 @@ from harness import common, faults, gen_tree, trees, treeimpl, updimpl
 from harness.common import cps, uncps
 from harness.props import c01
 
-BRIDGE = ('Gemato.Bridge.Tree', 'Gemato.Bridge.Faults', 'Gemato.Bridge.SrcVerify', 'Gemato.Bridge.SrcWalk', 'Gemato.Bridge.SrcUpdate')
+BRIDGE = ('Gemato.Bridge.Tree', 'Gemato.Bridge.Faults', 'Gemato.Bridge.SrcVerify', 'Gemato.Bridge.SrcWalk', 'Gemato.Bridge.SrcUpdate', 'Gemato.Bridge.SrcLoader', 'Gemato.Bridge.SrcCodec')
 PROPS = ['Gemato.Props.C06']
 
 INJ_ERRNOS = sorted(faults.ERRNOS.values())
